@@ -1,11 +1,13 @@
 import Driver.Util
 import Driver.Bip
 import Driver.FrameCodec
+import Driver.WsHandshake
 
 open Driver
 
 def components : List (String × (Script → Result)) :=
   [("bip", Driver.Bip.check),
-   ("codec", Driver.FrameCodec.check)]
+   ("codec", Driver.FrameCodec.check),
+   ("wshandshake", Driver.WsHandshake.check)]
 
 def main (args : List String) : IO UInt32 := Driver.mainWith components args
